@@ -341,10 +341,46 @@ func putCoeffs(e *boolEnc, t *vp8Tables, proba [][][][]int, typ, ctx, first int,
 	return true
 }
 
+// genLevelsBudget draws a coefficient block whose magnitudes add up to at most budget (in level units).
+// Why: the format's inverse transforms are specified on mathematical integers, real decoders (this one's assembly
+// kernels included) compute them in 16 bits. The two agree as long as no intermediate sum leaves the 16-bit range,
+// which holds when the dequantised coefficients of a block add up to less than about 19 000 (each 1-D pass gains at
+// most 1.3066). Frames beyond that are the subject of the known finding of C13, not of C04; the generator stays
+// inside: with amp x largest dequantiser <= 9 000 the budgets below keep every block under 15 000 (24 000 for the
+// 16 inputs of the WHT, whose outputs - at most an eighth of that sum - are part of the luma blocks' budget).
+func genLevelsBudget(rng *rand.Rand, first int, density, amp, budget int) []int {
+	lv := genLevels(rng, first, density, amp)
+	for {
+		sum, big := 0, 0
+		for i, v := range lv {
+			if v < 0 {
+				v = -v
+			}
+			sum += v
+			if a := lv[big]; v > a && v > -a {
+				big = i
+			}
+		}
+		if sum <= budget {
+			return lv
+		}
+		lv[big] /= 2
+	}
+}
+
 // genLevels draws a coefficient block. amp bounds the magnitudes (the TLA+ reader works in 32-bit integers).
 func genLevels(rng *rand.Rand, first int, density, amp int) []int {
 	lv := make([]int, 16)
 	if rng.Intn(100) >= density {
+		return lv
+	}
+	if first == 0 && rng.Intn(12) == 0 {
+		// a block whose only coefficient is a DC of the largest magnitude the frame allows (the decoder's DC-only
+		// shortcut then adds a large constant to the prediction and has to saturate)
+		lv[0] = amp
+		if rng.Intn(2) == 0 {
+			lv[0] = -amp
+		}
 		return lv
 	}
 	k := 1 + rng.Intn(16-first)
@@ -632,7 +668,7 @@ func genVP8Frame(rng *rand.Rand, maxMBW, maxMBH int, force string) genVP8 {
 			any := false
 			first, ytype := 0, 3
 			if !is4 {
-				lv := genLevels(rng, 0, density, amp)
+				lv := genLevelsBudget(rng, 0, density, amp, amp*24/9)
 				nz := putCoeffs(tok, t, proba, 1, tn.dc+leftNz.dc, 0, lv)
 				tn.dc, leftNz.dc = b2i(nz), b2i(nz)
 				any = any || nz
@@ -640,21 +676,25 @@ func genVP8Frame(rng *rand.Rand, maxMBW, maxMBH int, force string) genVP8 {
 			}
 			for k := 0; k < 16; k++ {
 				y, x := k/4, k%4
-				lv := genLevels(rng, first, density, amp)
+				lb := amp * 15 / 9
+				if first == 1 {
+					lb = amp * 12 / 9 // the DC comes from the WHT: at most 3 000 after the budget above
+				}
+				lv := genLevelsBudget(rng, first, density, amp, lb)
 				nz := putCoeffs(tok, t, proba, ytype, tn.y[x]+leftNz.y[y], first, lv)
 				tn.y[x], leftNz.y[y] = b2i(nz), b2i(nz)
 				any = any || nz
 			}
 			for k := 0; k < 4; k++ {
 				y, x := k/2, k%2
-				lv := genLevels(rng, 0, density, amp)
+				lv := genLevelsBudget(rng, 0, density, amp, amp*15/9)
 				nz := putCoeffs(tok, t, proba, 2, tn.u[x]+leftNz.u[y], 0, lv)
 				tn.u[x], leftNz.u[y] = b2i(nz), b2i(nz)
 				any = any || nz
 			}
 			for k := 0; k < 4; k++ {
 				y, x := k/2, k%2
-				lv := genLevels(rng, 0, density, amp)
+				lv := genLevelsBudget(rng, 0, density, amp, amp*15/9)
 				nz := putCoeffs(tok, t, proba, 2, tn.v[x]+leftNz.v[y], 0, lv)
 				tn.v[x], leftNz.v[y] = b2i(nz), b2i(nz)
 				any = any || nz
